@@ -14,6 +14,12 @@ CHECKS = {
    text='Every single cut / EOF / read-error position of every generated short stream is enumerated for both codecs and both entry points, plus seeded multi-fault arrival patterns for long streams; each returned frame, error and Size() is compared with the sender\'s record. Sampling of frame lists, enumeration of fault positions.',
    note='SimConn implements the ConnReader doc comment (non-blocking Peek, views die at the next read call) in three buffer disciplines; frames up to 64 KiB.'),
 }
+CHECKS['C01']=dict(level='exploration', ref='4.1', technique='deterministic simulation: sender/receiver nodes over a seeded byte-preserving link and the real framer; conservation + field-wise round-trip oracle; misfit values must be refused',
+   text='Seeded streams of 2..8 PDUs of all 57 types with boundary-biased well-formed values travel over a link that cuts and coalesces; the receiver (real framer + IDecode) must get exactly the PDUs sent, field by field, with the header length equal to the byte count; over-long fixed-width values must make IEncode fail. Sampling, not enumeration of the value space.',
+   note='Value space is sampled by a generator driven by the specification tables; per-field known findings (SMGP raw/hex id, trailing-NUL authenticators) are listed in known_findings.json.')
+CHECKS['C02']=dict(level='exploration', ref='4.2', technique='deterministic simulation against an independent spec-model peer (table-driven codec transcribed from the PDFs) over a seeded link; exhaustive destination-count x body-length sweep of the submit types',
+   text='The library\'s octets are parsed by a model peer built only from the specification tables (and vice versa: conformant images are framed, dispatched and decoded by the library); every field, the length prefix, command id and sequence offsets must agree octet for octet. The destination-count 0..255 x body-length sweep is enumerated.',
+   note='Trusted base: /verif/spec/layouts.spec (transcribed from the five PDFs in /repo/doc). Disagreements are triaged against the PDF text in /verif/spec/txt.')
 PENDING = {}
 def load_extra():
     try:
